@@ -1295,7 +1295,9 @@ impl Server {
         let mut query = String::from("");
 
         for (key, value) in parameter_diff {
-            query.push_str(&format!("SET {} TO '{}';", key, value));
+            // Values are client-controlled (e.g. application_name): escape quotes so that the
+            // statement stays well-formed and sets exactly the value the client asked for.
+            query.push_str(&format!("SET {} TO '{}';", key, value.replace('\'', "''")));
         }
 
         let res = self.query(&query).await;
